@@ -48,6 +48,16 @@ CLAIMED = {
   text="For every path of every function that reserves a transaction reference: reservation precedes the store lookup, both precede the hand-off, no hand-off on the lookup-found path, and the reservation is released only after the persistence wait of the handed-off log; the lookup is ledger-scoped and keyed by reference. This reservation is the whole mechanism (no unique index), so its span is the necessary and sufficient structural condition within one process.",
   design_ref="DESIGN.md §3 C11",
   technique="path state machine over SSA with infeasible-edge pruning (static analysis)"),
+ "C14": dict(
+  category="other",
+  text="The effect set of the write path (id counter, chain head, batcher hand-off, every monitor method) is enumerated from the code and, for each effect instruction, every path from every exported Commander method is shown to cross the DryRun == false edge (in the effect's function or at all of its call sites, recursively); the preview branch uses the real builder and only peeks at the next id. For every kind of write and every position in a history, because the rule is about program paths. Equality of later histories follows only if the effect set is complete (frozen list).",
+  design_ref="DESIGN.md §3 C14",
+  technique="edge-fact guard analysis with caller propagation over the resolved call structure (static analysis)"),
+ "C16": dict(
+  category="other",
+  text="Every monitor call is reached only through the nil-error edge of the persisting call (which returns after the persistence wait, C06) and not in dry-run; every successful write path publishes; argument roles: the values given to each monitor method are the ones in the persisted log payload / read from the store, and ledgerMonitor maps each parameter to the payload field of the same role. Broker delivery not decided.",
+  design_ref="DESIGN.md §3 C16",
+  technique="path state machine over SSA + SSA provenance of call arguments (role table) (static analysis)"),
 }
 
 NOT_APPLICABLE = {
